@@ -2,7 +2,7 @@
 (* Extension X02: a second session state machine over the heap model of property C01             *)
 (* (Dictable.tla): a heap of table objects, registers that name them, the outcome of the last     *)
 (* call.  The actions are the public dictable calls that no listed property covers:               *)
-(*   NewX        the construction forms (records, header + rows, DataFrame, zip forms)            *)
+(*   NewX        the construction forms (records, header + rows, values + name, DataFrame, zips)   *)
 (*   Extend      dictable(d, extra = ..)                      allocates, d unchanged              *)
 (*   Get GetAttr TupleGet Apply IfElse Repr DictConcat DictConcatRows     reads: nothing changes  *)
 (*   Call        d(c = v, e = f, ..)                           allocates                          *)
@@ -59,7 +59,12 @@ XSeeds == <<
     [kind |-> "cols", how |-> "dict", cols |-> <<"x", "p", "q">>, args |-> <<<<"l", <<V1, V2>>>>, <<"l", <<V1, V2>>>>, <<"l", <<VX, None>>>>>>],   \* wide form
     [kind |-> "cols", how |-> "dict", cols |-> <<"a", "b">>, args |-> <<<<"l", <<VNaN(1), V2>>>>, <<"l", <<None, VInf(1)>>>>>>],
     [kind |-> "cols", how |-> "dict", cols |-> <<"a">>, args |-> <<<<"l", <<V1, V2, V1, V2, V1, V2, None>>>>>>],          \* seven rows
-    [kind |-> "cols", how |-> "zip", cols |-> <<"key", "a">>, args |-> <<<<"l", <<VX, V2>>>>, <<"l", <<V1, None>>>>>>]      \* a column called 'key'
+    [kind |-> "cols", how |-> "zip", cols |-> <<"key", "a">>, args |-> <<<<"l", <<VX, V2>>>>, <<"l", <<V1, None>>>>>>],     \* a column called 'key'
+    [kind |-> "single", name |-> "ab", vals |-> <<V1, None>>],                                               \* dictable([1, None], 'ab')
+    [kind |-> "single", name |-> "ab", vals |-> <<>>],                                                       \* dictable([], 'ab'): still ONE column
+    [kind |-> "rows", how |-> "header", hdrs |-> <<"a", "b">>, rows |-> <<>>],                                 \* dictable([['a','b']]): a header and no rows
+    [kind |-> "cols", how |-> "dict", cols |-> <<"x", "w", "y", "z">>,
+        args |-> <<<<"l", <<V1, V1, V2, V1>>>>, <<"l", <<V2, V1, V1, V2>>>>, <<"l", <<VStr("q"), VStr("p"), VStr("p"), VStr("q")>>>>, <<"l", <<VX, None, V1, V2>>>>>>]   \* long form, two x columns, a repeated cell
 >>
 GetMenu     == <<<<"a", None>>, <<"q", None>>, <<"zz", V2>>>>
 GetAttrMenu == <<<<"a", <<>>>>, <<"zz", <<>>>>, <<"zz", <<V2>>>>, <<"q", <<None>>>>>>
@@ -114,7 +119,9 @@ XyzMenu     == <<[xs |-> <<"x">>, y |-> "y", z |-> <<"c", "z">>, agg |-> "none"]
                  [xs |-> <<"x">>, y |-> "y", z |-> <<"f", XF("tuple", <<"x", "z">>)>>, agg |-> "last"],
                  [xs |-> <<"x">>, y |-> "y", z |-> <<"c", "zz">>, agg |-> "len"],
                  [xs |-> <<"x">>, y |-> "y", z |-> <<"c", "z">>, agg |-> "len"],
-                 [xs |-> <<"x">>, y |-> "y", z |-> <<"c", "z">>, agg |-> "first"]>>
+                 [xs |-> <<"x">>, y |-> "y", z |-> <<"c", "z">>, agg |-> "first"],
+                 [xs |-> <<"x", "w">>, y |-> "y", z |-> <<"c", "z">>, agg |-> "none"],
+                 [xs |-> <<"w", "x">>, y |-> "y", z |-> <<"f", XF("coalesce", <<"z", "y">>)>>, agg |-> "last"]>>
 ConcatMenu  == <<<<<<<<"a", V1>>, <<"b", V2>>>>, <<<<"a", VX>>, <<"c", None>>>>>>,                             \* different keys
                  <<<<<<"b", V1>>, <<"a", V2>>>>, <<<<"a", VX>>, <<"b", None>>>>>>,
                  <<<<<<"b", V1>>, <<"a", V2>>>>>>, <<>>>>
